@@ -3,7 +3,7 @@
 import ast
 from itertools import product
 from .core import AnalysisError
-from .astutil import src, strip_doc
+from .astutil import src, strip_doc, expand_locals
 from .tables import module_literal
 
 RX = 'chython.containers.reaction'
@@ -32,7 +32,9 @@ def rule_roles(ck, repo, R):
             test = src(st.test)
             call = next(c for c in ast.walk(st) if isinstance(c, ast.Call) and src(c.func) == 'mso.sort')
             key = next((src(k.value) for k in call.keywords if k.arg == 'key'), None)
-            ck.decide(test == "not format_spec or '!c' not in format_spec" and key == 'itemgetter(1)', R, 'writer:sort', (test, key),
+            from .r_query import dnf as _dnf, simplify as _simplify
+            same_test = _simplify(_dnf(st.test)) == _simplify(_dnf(ast.parse("not format_spec or '!c' not in format_spec", mode='eval').body))
+            ck.decide(same_test and key == 'itemgetter(1)', R, 'writer:sort', (test, key),
                       f'per-role sort runs under `{test}` with key {key}; expected: unless "!c", by the molecule string', file=f.file, line=st.lineno, func=f.qualname)
     ck.decide(sort_idx is not None, R, 'writer:sort-present', None, 'molecules of a role are no longer sorted by their strings: the reaction string depends on molecule order',
               file=f.file, line=lp.lineno, func=f.qualname)
@@ -130,9 +132,37 @@ def rule_sides(ck, repo, R):
             'dynamic._p_is_radical': 'atom2.is_radical'}
     ck.decide(asg == want, R, 'from_atoms:fields', asg, f'DynamicElement.from_atoms assigns {asg}', file=fr.file, line=fr.lineno, func=fr.qualname)
     rc = repo.func(f'{RX}:ReactionContainer.compose')
-    s = src(rc.node)
-    ck.decide('rr = self.reagents + self.reactants' in s and 'reduce(or_, rr)' in s and 'reduce(or_, self.products)' in s and 'return r ^ p' in s, R, 'reaction:compose', None,
-              'ReactionContainer.compose is no longer (reagents | reactants) ^ products', file=rc.file, line=rc.lineno, func=rc.qualname)
+    rets = [n for n in ast.walk(rc.node) if isinstance(n, ast.Return) and isinstance(n.value, ast.BinOp) and isinstance(n.value.op, ast.BitXor)]
+
+    def side_roles(e):
+        """roles united (with the copying `or_`) into the operand e of the final `^`; None when the shape is not reduce(or_, <roles>)"""
+        vals = []
+        if isinstance(e, ast.Name):
+            for n in ast.walk(rc.node):
+                if isinstance(n, ast.Assign) and any(isinstance(t, ast.Name) and t.id == e.id for t in n.targets):
+                    vals += [n.value.body, n.value.orelse] if isinstance(n.value, ast.IfExp) else [n.value]
+        else:
+            vals = [e]
+        roles, ops = set(), set()
+        for v in vals:
+            for c in ast.walk(v):
+                if isinstance(c, ast.Call) and isinstance(c.func, ast.Name) and c.func.id == 'reduce' and len(c.args) >= 2:
+                    ops.add(src(c.args[0]))
+                    arg = expand_locals(c.args[1], rc.node)
+                    for a in ast.walk(arg):
+                        if isinstance(a, ast.Attribute) and isinstance(a.value, ast.Name) and a.value.id == 'self':
+                            roles.add(a.attr.lstrip('_'))
+        return roles, ops
+    ok = False
+    got = None
+    if len(rets) == 1:
+        lroles, lops = side_roles(rets[0].value.left)
+        rroles, rops = side_roles(rets[0].value.right)
+        got = (sorted(lroles), sorted(lops), sorted(rroles), sorted(rops))
+        ok = lroles == {'reagents', 'reactants'} and rroles == {'products'} and lops == {'or_'} and rops == {'or_'}
+    ck.decide(ok, R, 'reaction:compose', got,
+              f'ReactionContainer.compose is no longer reduce(or_, reagents + reactants) ^ reduce(or_, products) (copying union on both sides): found {got}',
+              file=rc.file, line=rc.lineno, func=rc.qualname)
     x = repo.func('chython.containers.molecule:MoleculeContainer.__xor__')
     ck.decide('return self.compose(other)' in src(x.node), R, 'xor', None, '^ no longer composes self (left) with other (right)', file=x.file, line=x.lineno)
     # dynamic flags
